@@ -562,7 +562,7 @@ def knot_insertion(degree, knotvector, ctrlpts, u, **kwargs):
     return ctrlpts_new
 
 
-@lru_cache(maxsize=os.environ['GEOMDL_CACHE_SIZE'] if "GEOMDL_CACHE_SIZE" in os.environ else 128)
+@lru_cache(maxsize=int(os.environ['GEOMDL_CACHE_SIZE']) if "GEOMDL_CACHE_SIZE" in os.environ else 128)
 def knot_insertion_alpha(u, knotvector, span, idx, leg):
     """ Computes :math:`\\alpha` coefficient for knot insertion algorithm.
 
@@ -741,7 +741,7 @@ def knot_removal(degree, knotvector, ctrlpts, u, **kwargs):
     return ctrlpts_new
 
 
-@lru_cache(maxsize=os.environ['GEOMDL_CACHE_SIZE'] if "GEOMDL_CACHE_SIZE" in os.environ else 128)
+@lru_cache(maxsize=int(os.environ['GEOMDL_CACHE_SIZE']) if "GEOMDL_CACHE_SIZE" in os.environ else 128)
 def knot_removal_alpha_i(u, degree, knotvector, num, idx):
     """ Computes :math:`\\alpha_{i}` coefficient for knot removal algorithm.
 
@@ -763,7 +763,7 @@ def knot_removal_alpha_i(u, degree, knotvector, num, idx):
     return (u - knotvector[idx]) / (knotvector[idx + degree + 1 + num] - knotvector[idx])
 
 
-@lru_cache(maxsize=os.environ['GEOMDL_CACHE_SIZE'] if "GEOMDL_CACHE_SIZE" in os.environ else 128)
+@lru_cache(maxsize=int(os.environ['GEOMDL_CACHE_SIZE']) if "GEOMDL_CACHE_SIZE" in os.environ else 128)
 def knot_removal_alpha_j(u, degree, knotvector, num, idx):
     """ Computes :math:`\\alpha_{j}` coefficient for knot removal algorithm.
 
